@@ -143,6 +143,8 @@ type swarm struct {
 	// cancelRate: one in cancelRate operations of a process is the moment its context is
 	// cancelled (ctrl-C, --timeout): everything it does afterwards may fail, nothing may lie
 	cancelRate int
+	// cancelWorkers: cancellation prefers the moments at which a parallel job of the process is about to act
+	cancelWorkers bool
 }
 
 type policy struct {
@@ -165,12 +167,18 @@ func (p *policy) Decide(s *sched.Sim, op sched.Op) sched.Decision {
 		p.m.cancelMu.Lock()
 		cancel := p.m.cancels[op.Proc]
 		p.m.cancelMu.Unlock()
-		if cancel != nil && s.Tape.Draw("cancel?", sw.cancelRate) == 1 {
+		rate := sw.cancelRate
+		if sw.cancelWorkers && op.Job != "" {
+			// inside an operation with in-flight state: one of the parallel jobs of a copy is about to act
+			rate = min(rate, 6)
+		}
+		if cancel != nil && s.Tape.Draw("cancel?", rate) == 1 {
 			sw.budget--
 			p.m.cancelMu.Lock()
 			delete(p.m.cancels, op.Proc)
 			p.m.cancelMu.Unlock()
 			cancel()
+			p.m.cancelled[op.Proc] = true
 			s.Fired("cancel")
 			return sched.Decision{}
 		}
@@ -221,8 +229,10 @@ type csim struct {
 	// cancels[process name]: cancels the context that process works under
 	cancels  map[string]context.CancelFunc
 	cancelMu sync.Mutex
-	tar      bool
-	quiet    bool
+	// cancelled[process name]: its context has been cancelled (scheduler goroutine only)
+	cancelled map[string]bool
+	tar       bool
+	quiet     bool
 	// tainted[module index]: tampered in a way that need not be repaired
 	tainted map[int]bool
 	// provided[proc] = modules the process obtained successfully
@@ -675,6 +685,11 @@ func (m *csim) newProcess(name string) *procState {
 		commitProvider: bufmodulecache.NewCommitProvider(slogext.NopLogger, m.reg, bufmodulestore.NewCommitStore(slogext.NopLogger, cbucket)),
 		provided:       map[int]bool{},
 	}
+}
+
+// slowProc: every second process (p1, p3, ...) is the slow one of a run that has slow processes.
+func slowProc(name string) bool {
+	return len(name) > 1 && name[0] == 'p' && (name[len(name)-1]-'0')%2 == 1
 }
 
 func (m *csim) spawn(script []action, strict bool) *procResult {
@@ -1178,7 +1193,7 @@ func Run(tp *tape.Tape, env *engine.Env) *engine.Outcome {
 	hooks.RenameYield = true
 	verifhook.SetHandler(hooks)
 	defer verifhook.SetHandler(nil)
-	m := &csim{tp: tp, s: s, env: env, hooks: hooks, tainted: map[int]bool{}, counters: map[string]int{}, crashStates: map[string]struct{}{}, cancels: map[string]context.CancelFunc{}}
+	m := &csim{tp: tp, s: s, env: env, hooks: hooks, tainted: map[int]bool{}, counters: map[string]int{}, crashStates: map[string]struct{}{}, cancels: map[string]context.CancelFunc{}, cancelled: map[string]bool{}}
 	u, err := modgen.New(tp, modgen.Options{MaxModules: 4, MaxFiles: 4, AllowB4: true, Extras: true})
 	if err != nil {
 		panic(err)
@@ -1238,6 +1253,21 @@ func Run(tp *tape.Tape, env *engine.Env) *engine.Outcome {
 	}
 	m.sw = sw
 	s.Policy = &policy{m: m}
+	// slow tasks (sched.Sim.Laggard): the workers a cancelled process may have left behind, one slow process,
+	// or the workers of one slow process - overtaken by the others for many steps in a row
+	s.LagRate = tape.Pick(tp, "lagrate", []int{32, 8, 128})
+	switch lag := tp.Draw("lagmode", 5); {
+	case (lag == 1 && sw.faults) || (lag == 4 && sw.cancelRate > 0):
+		if sw.cancelRate == 0 {
+			sw.cancelRate = tape.Pick(tp, "cancelrate", []int{30, 12, 60})
+		}
+		sw.cancelWorkers = true
+		s.Laggard = func(op sched.Op) bool { return op.Job != "" && m.cancelled[op.Proc] }
+	case lag == 2:
+		s.Laggard = func(op sched.Op) bool { return slowProc(op.Proc) }
+	case lag == 3:
+		s.Laggard = func(op sched.Op) bool { return op.Job != "" && slowProc(op.Proc) }
+	}
 	strict := !sw.faults
 	snapshots := sw.faults || tp.Draw("snapff", 3) == 0
 	if snapshots {
